@@ -136,6 +136,12 @@ import oracles_b09 as OB  # noqa: E402
 
 B09_LEAN_EXTRA = ["CocoVerif.Model.Ast", "CocoVerif.Model.Emit", "CocoVerif.Model.Visit", "CocoVerif.Model.Passes",
                   "CocoVerif.Model.Compile", "CocoVerif.Model.ProcBank", "CocoVerif.Model.Sexp"]
+FRONT_SUITES = [{"name": "parse", "relevant": lambda c: True, "oracle": None},
+                {"name": "front", "relevant": lambda c: True, "oracle": None},
+                {"name": "e2e", "relevant": lambda c: True, "oracle": None}]
+FRONT_LEAN = ["CocoVerif.Model.Peg", "CocoVerif.Model.Front", "CocoVerif.Model.AstPrint", "CocoVerif.Gen.Grammar",
+              "CocoVerif.Gen.FrontTables"]
+
 B09_TRUSTED = [
     "modelled, not verified: parsimonious + Python `re` (the front end: text -> parse tree -> object graph is executed by the "
     "real code and handed to the model as an S-expression dump; harness/dump_ast.py is part of the tie), Python float repr "
@@ -254,6 +260,7 @@ register_b09(
     "a case is non-trivial when the text is non-empty; distinct = distinct request",
     assumptions=["documented refusals: ParseError / IncompleteParseError (grammar), ParseError (undefined line, duplicate handler), "
                  "LineNumberTooLargeException, pydantic ValidationError"],
+    extra_suites=FRONT_SUITES, lean_extra=FRONT_LEAN,
 )
 
 register_b09(
@@ -375,8 +382,9 @@ import suite_layout  # noqa: E402
 
 PROPS["C08"] = {
     "lean": ["CocoVerif.Props.C08"],
-    "lean_extra": B09_LEAN_EXTRA + ["CocoVerif.Model.Cli"],
-    "suites": [{"name": "layout", "relevant": lambda c: True, "oracle": suite_layout.oracle, "classify": suite_layout.classify}],
+    "lean_extra": B09_LEAN_EXTRA + ["CocoVerif.Model.Cli"] + FRONT_LEAN,
+    "suites": [{"name": "layout", "relevant": lambda c: True, "oracle": suite_layout.oracle, "classify": suite_layout.classify}]
+              + FRONT_SUITES,
     "search": None,
     "rule": "base programs: 43 probes (one per statement kind, fully spaced), the bundled examples, test-suite programs and "
             "grammar-directed generated programs without optional blanks (quick 40+40+2, thorough 400+400+50); variants of each: "
